@@ -14,6 +14,7 @@ Mirrors
   (`torch.cat([eval_policy(batch) for batch in dl], 0)`) and `wrap_dataset`
   (`dataset.add_key("extra", rewards)`).
 -/
+import Rl4co.Generated.Params
 namespace Rl4co.Ops
 
 variable {α β : Type}
@@ -27,22 +28,40 @@ def chunksAux (n : Nat) : Nat → List α → List (List α)
 /-- `BatchSampler(sampler, batch_size = n, drop_last = False)` -/
 def chunks (n : Nat) (xs : List α) : List (List α) := chunksAux n xs.length xs
 
+/-- the three fetch paths hand back the items of the index list exactly as given:
+`TensorDictDataset.collate_fn` stacks `[b[key] for b in batch]`, `FastTdDataset.__getitems__` is
+`return self.data[idx]`, `TensorDictDatasetFastGeneration.__getitems__` indexes every entry with the
+list as given (all three regenerated from the source, `harness/probes/ops.py`) -/
+def fetchDirect : Bool := Params.dsCollateInOrder && Params.dsFastTdDirect && Params.dsFastGenDirect
+
 /-- fetching a batch: every dataset class returns, for the index list `idxs`, the stack of the
-items `item i` in that order -/
-def fetch (item : Nat → α) (idxs : List Nat) : List α := idxs.map item
+items `item i` in that order.  When a fetch path has another shape (a fast path, a re-ordering …)
+nothing is known about it: modelled as delivering nothing, so that no theorem survives. -/
+def fetch (item : Nat → α) (idxs : List Nat) : List α := if fetchDirect then idxs.map item else []
 
 /-- batches of `DataLoader(ds, batch_size = bs, collate_fn = ds.collate_fn)` under sampler order
 `order` -/
 def loader (bs : Nat) (order : List Nat) (item : Nat → α) : List (List α) :=
   (chunks bs order).map (fetch item)
 
+/-- index expression of `self.extra[idx]` (`Params.dsExtraIndexShift` = 0 for `idx`) -/
+def extraIdx (i : Nat) : Nat := (Int.ofNat i + Params.dsExtraIndexShift).toNat
+
 /-- `ExtraKeyDataset.__getitem__` -/
-def extraItem (item : Nat → α) (extra : Nat → β) : Nat → α × β := fun i => (item i, extra i)
+def extraItem (item : Nat → α) (extra : Nat → β) : Nat → α × β := fun i => (item i, extra (extraIdx i))
+
+/-- order of the loader `RL4COLitModule._dataloader_single(dataset, bs, shuffle)` builds: it passes
+`shuffle=shuffle` on (`Params.loaderShufflePassthrough`), so without shuffling the order is sequential;
+`perm` is the permutation a shuffling sampler draws (observed, not modelled) -/
+def moduleOrder (shuffle : Bool) (n : Nat) (perm : List Nat) : List Nat :=
+  if (if Params.loaderShufflePassthrough then shuffle else true) then perm else List.range n
 
 /-- `RolloutBaseline.rollout`: concatenation of the policy's per-batch rewards over the sequential
 loader of `ds` with evaluation batch size `bs` -/
 def rollout (f : List α → List β) (bs : Nat) (ds : List α) : List β :=
-  ((chunks bs ds).map f).flatten
+  -- `DataLoader(dataset, batch_size=…, collate_fn=…)` (sequential, nothing dropped) and
+  -- `torch.cat([eval_policy(batch) for batch in dl], 0)`; any other shape: nothing known
+  if Params.blRolloutLoaderPlain && Params.blRolloutPlainConcat then ((chunks bs ds).map f).flatten else []
 
 /-- a batch function that acts row by row (what a policy in `eval()` mode with greedy decoding is
 assumed to be; checked on the stub policies the harness uses, an assumption for real networks) -/
@@ -51,6 +70,31 @@ def RowWise (f : List α → List β) : Prop := ∃ g : α → β, ∀ xs, f xs 
 /-- `wrap_dataset`: item `i` of the wrapped data set -/
 def wrapItem (f : List α → List β) (bs : Nat) (ds : List α) (dflt : α) (dfltB : β) : Nat → α × β :=
   extraItem (fun i => ds.getD i dflt) (fun i => (rollout f bs ds).getD i dfltB)
+
+/-! ### `EvalBase.__call__`: concatenation of per-batch results with right zero-padding of the actions
+
+```
+for batch in dataloader: actions, rewards = self._inner(policy, td); rewards_list.append(rewards); actions_list.append(actions)
+rewards = torch.cat(rewards_list)
+max_length = max(action.size(-1) for action in actions_list)
+actions = torch.cat([pad(action, (0, max_length - action.size(-1))) for action in actions_list], 0)
+``` -/
+
+/-- `torch.nn.functional.pad(row, (left, L - len))` with zeros; `left = Params.evalPadLeft` (0 in the source) -/
+def padRow (L : Nat) (row : List Int) : List Int :=
+  List.replicate (min Params.evalPadLeft (L - row.length)) 0 ++ row ++
+    List.replicate (L - row.length - min Params.evalPadLeft (L - row.length)) 0
+
+def maxLen (rows : List (List Int)) : Nat := rows.foldl (fun m r => max m r.length) 0
+
+/-- result of `EvalBase.__call__` for per-batch outcomes `outs` (a batch outcome = one
+`(reward, action row)` per instance): `(rewards, actions)` -/
+def evalCall (inner : List α → List (β × List Int)) (batches : List (List α)) : List β × List (List Int) :=
+  if Params.evalCatInOrder then
+    let outs := batches.map inner
+    let rows := (outs.map (fun o => o.map Prod.snd)).flatten
+    ((outs.map (fun o => o.map Prod.fst)).flatten, rows.map (padRow (maxLen rows)))
+  else ([], [])
 
 /-! ### the stateful view: items shared by reference
 
@@ -70,7 +114,10 @@ abbrev Store (β : Type) := List (Dict β)
 
 /-- `ExtraKeyDataset.__getitem__ i` on the shared store: new store and the returned dict -/
 def readExtra (st : Store β) (key : String) (extra : Nat → β) (i : Nat) : Store β × Dict β :=
-  let d := (st.getD i []).set key (extra i)
+  let cur := st.getD i []
+  -- `Params.dsExtraWriteUnconditional`: the assignment is a plain statement of the body; a guarded
+  -- write ("attach only once") is modelled as writing only when the key is absent
+  let d := if Params.dsExtraWriteUnconditional || ((cur.get? key).isNone) then cur.set key (extra (extraIdx i)) else cur
   (st.set i d, d)
 
 /-- reading a whole index list through one wrapper, threading the store -/
